@@ -27,6 +27,7 @@ const (
 	probeBlockBoundary
 	probeNondetReference
 	probeErrCallback
+	probeVisitorAbort
 )
 
 var probeNames = map[int]string{
@@ -34,7 +35,7 @@ var probeNames = map[int]string{
 	probeWriterErr: "writer_error_fired", probeWriterShort: "writer_short_write_fired", probeWriterPanic: "writer_panic_fired",
 	probeDumperPanicTaken: "dumper_write_error_panic_taken", probePrinterContinued: "printer_continued_after_write_error",
 	probeBlockBoundary: "pool_block_boundary_crossed", probeNondetReference: "nondeterministic_reference",
-	probeErrCallback: "error_callback_fired",
+	probeErrCallback: "error_callback_fired", probeVisitorAbort: "visitor_abort_fired",
 }
 
 var (
@@ -77,6 +78,7 @@ func snapshotPhase1(res *scn.Result) {
 func main() {
 	scnPath := flag.String("scn", "", "scenario file")
 	outPath := flag.String("out", "", "result file")
+	iso := flag.Int("iso", -1, "run only flattened pipeline k, alone (isolated reference)")
 	flag.Parse()
 	procs := 1
 	if v := os.Getenv("ZZSIM_PROCS"); v != "" {
@@ -95,6 +97,13 @@ func main() {
 		os.Exit(3)
 	}
 	res := &scn.Result{Prop: s.Prop, RunSeed: s.RunSeed, Faults: map[string]int64{}, Probes: map[string]int64{}, KnobState: knobState}
+	switch {
+	case *iso >= 0:
+		runIso(&s, *iso, res)
+		out, _ := json.Marshal(res)
+		os.WriteFile(*outPath, out, 0644)
+		return
+	}
 	switch s.Prop {
 	case "C11":
 		runC11(&s, res)
